@@ -138,6 +138,24 @@ def run_real_ctl(case, xexit_as="xexit"):
                 pc.assign_all(name, value=float(op[2]))
             except ValueError:
                 raised = True
+        elif op[0] == "handback":
+            # what optimise() does: a calculator is made from the controller (every definition recomputed), moved
+            # to another point, and the controller takes its values back (update_from_calculator)
+            import numpy
+
+            lc = pc.make_calculator()
+            lean_ops.append(["mkcalc"])
+            steps.append(dict(snap(), raised=False))
+            x = [float((int(v) + 1 + op[1] * (i + 1)) % 7) for i, v in enumerate(lc.get_value_array())]
+            cv = [0] * len(order)
+            for par, v in zip(lc.opt_pars, x):
+                cv[idx[par.name]] = int(v)
+            lean_ops.append(["fromcalc", cv])
+            try:
+                lc(numpy.array(x))
+                pc.update_from_calculator(lc)
+            except ValueError:
+                raised = True
         elif op[0] == "updall":
             lean_ops.append(["updall"])
             try:
